@@ -5,13 +5,17 @@ mod cmd_native;
 mod native;
 mod cmd_stages;
 mod cmd_fun2core;
+mod cmd_subst;
 mod cmd_rt;
 mod cmd_check;
 mod cmd_check_gen;
 mod cmd_fmt;
 mod gen_fun;
 mod gen_fun_ast;
+mod cmd_rvall;
+mod gen_rvmini;
 mod consts;
+mod gen_axlin;
 mod pipe;
 mod cmd_genfun;
 mod gen_fun_check;
@@ -85,6 +89,7 @@ fn main() {
         "genfun-stats" => { cmd_genfun::cmd_stats(num(2, 1), num(3, 100) as usize, args.get(4..).unwrap_or(&[])); return; }
         _ => {}
     }
+    if arg(1) == "show-gen" { cmd_backend::cmd_show_gen(arg(2), num(3, 1), num(4, 0) as usize); return; }
     let mut out: Box<dyn std::io::Write> = match args.get(4) {
         Some(p) if p != "-" => Box::new(std::io::BufWriter::new(std::fs::File::create(p).expect("create out"))),
         _ => Box::new(std::io::BufWriter::new(std::io::stdout())),
@@ -99,12 +104,15 @@ fn main() {
         "native-x86" => cmd_native::cmd_native_x86(num(2, 1), num(3, 0) as usize, &mut *out, &args[5.min(args.len())..]),
         "stages-text" => { cmd_det::cmd_stages_text(arg(2)); return; }
         "determinism" => cmd_det::cmd_determinism(num(2, 1), num(3, 0) as usize, &mut *out, &args[5.min(args.len())..]),
+        "codegen-all" => cmd_rvall::cmd_codegen_all(num(2, 1), num(3, 0) as usize, &mut *out, &args[5.min(args.len())..]),
+        "show-rvmini" => { use printer::Print; let mut r = Rng::new(num(2, 1)); for _ in 0..num(3, 1) { let p = gen_rvmini::program(&mut r.fork(), 14); println!("{}\n-- check: {:?}\n", p.print_to_string(None), gen_rvmini::check(&p)); } }
         "pm" => cmd_pm(num(2, 1), num(3, 100) as usize, &mut *out),
         "lin-show" => { cmd_lin::cmd_lin_show(num(2, 1)); return; }
         "lin" => cmd_lin::cmd_lin(num(2, 1), num(3, 100) as usize, &mut *out, args.get(5..).unwrap_or(&[])),
         "check" => cmd_check::cmd_check(num(2, 1), num(3, 0) as usize, args.get(5..).unwrap_or(&[]), &mut *out),
         "stages" => cmd_stages::cmd_stages(num(2, 1), num(3, 0) as usize, args.get(5..).unwrap_or(&[]), &mut *out),
         "fun2core" => cmd_fun2core::cmd_fun2core(num(2, 1), num(3, 0) as usize, args.get(5..).unwrap_or(&[]), &mut *out),
+        "subst" => cmd_subst::cmd_subst(num(2, 1), num(3, 0) as usize, &mut *out, args.get(5..).unwrap_or(&[])),
         "rt" => cmd_rt::cmd_rt(num(2, 1), num(3, 100) as usize, &mut *out),
         "fmt" => cmd_fmt::cmd_fmt(num(2, 1), num(3, 0) as usize, args.get(5..).unwrap_or(&[]), &mut *out),
         c => { eprintln!("unknown command {c}"); std::process::exit(2); }
